@@ -7,12 +7,15 @@ import signal
 import time
 
 
-def run_forked(n_items, fn, max_par=16, hard_timeout_s=120):
+def run_forked(n_items, fn, max_par=16, hard_timeout_s=120, should_stop=None):
     results = [None] * n_items
     running = {}  # fd -> [idx, pid, start, bytearray]
     nxt = 0
-    while nxt < n_items or running:
-        while nxt < n_items and len(running) < max_par:
+    stopped = False
+    while (nxt < n_items and not stopped) or running:
+        if should_stop is not None and not stopped and should_stop(results):
+            stopped = True  # no further items are started (their results stay None); running ones finish
+        while nxt < n_items and len(running) < max_par and not stopped:
             r, w = os.pipe()
             pid = os.fork()
             if pid == 0:
